@@ -31,12 +31,8 @@ from sa.effects import Effects
 from sa.flow import Expander
 from sa.model import walk_no_nested, src, unmangle
 from sa.pat import match, same
-from .clone_common import clone_provenance, find_copy_loops, report_copy_loop, copy_idiom_in_reach
+from .clone_common import clone_provenance, _self_stores, task_clone_shape
 
-# spec side (property text): a Task copy is made "without relations" and reports the NEW owner
-RELATION_STATE = {'_Task__parent', '_Task__children', '_Task__predecessors', '_Task__successors'}
-OWNER_STATE = {'_Task__wbs'}
-RELATION_PARAMS = {'parent', 'children', 'predecessors', 'successors'}
 
 
 def check(ctx):
@@ -75,171 +71,9 @@ def check(ctx):
 
 
 # ---------------------------------------------------------------------------------------------------------------------
-def _self_stores(f):
-    """(stmt, attr, value) for `self.<attr> = value` in f"""
-    out = []
-    for st, tgt, val in facts.attr_stores(f):
-        if isinstance(tgt.value, ast.Name) and tgt.value.id == f.self_name:
-            out.append((st, tgt.attr, val))
-    return out
-
-
-def _ctor_binding(call: ast.Call, init):
-    """constructor parameter -> argument expression (None if *args / **kwargs make it undecidable)"""
-    params = init.params[1:]
-    bind = {}
-    for i, a in enumerate(call.args):
-        if isinstance(a, ast.Starred) or i >= len(params):
-            return None
-        bind[params[i]] = a
-    for k in call.keywords:
-        if k.arg is None:
-            return None
-        bind[k.arg] = k.value
-    return bind
-
-
 def _fields(ctx, o):
-    prog = ctx.prog
-    init = prog.func('task.Task.__init__')
-    cl = prog.func('task.Task.clone')
-    task = prog.cls('Task')
-    sn = cl.self_name
-    ex = Expander(prog, cl, ctx.typer)
-    cfg = cfg_of(cl)
-    init_params = set(init.params[1:])
-
-    # ---- the constructor call of the copy
-    ctors = [n for n in walk_no_nested(cl.node) if isinstance(n, ast.Call) and isinstance(n.func, ast.Name) and n.func.id == 'Task']
-    rets = [n for n in walk_no_nested(cl.node) if isinstance(n, ast.Return)]
-    if len(ctors) != 1:
-        o.undecided(cl, cl.node, 'Task(...)', f"Task.clone contains {len(ctors)} `Task(...)` constructor calls (expected one)")
-        return
-    ctor = ctors[0]
-    bind = _ctor_binding(ctor, init)
-    if bind is None:
-        o.undecided(cl, ctor, ctor, "constructor call of the copy uses *args / **kwargs")
-        return
-    cvar = None
-    for d in ex.flow.defs:
-        if d.kind == 'assign' and d.value is ctor:
-            cvar = d.var
-    if not rets or not all(r.value is not None and (r.value is ctor or (isinstance(r.value, ast.Name) and r.value.id == cvar))
-                           for r in rets):
-        o.undecided(cl, cl.node, 'return', "Task.clone does not return the task it constructed")
-        return
-    for p in sorted(RELATION_PARAMS & set(bind)):
-        o.refute(cl, ctor, f"{p}=", f"Task.clone passes `{p}={src(bind[p])[:40]}` to the constructor: the copy is wired into the "
-                                    f"source's relations (and the source's lists are modified); relations are rebuilt by the WBS")
-
-    def reads(expr, field=None, attr=None):
-        """does expr read self.<field> (private, directly or through a single-return getter) / self.<attr>"""
-        e = ex.expand(expr, cfg.node_containing(ctor))
-        m = match(f"{sn}.$a", e)
-        if not m:
-            return False
-        a = m['a']
-        if attr is not None:
-            return a == attr
-        if a == field:
-            return True
-        g = prog.find_getter('Task', unmangle(a))
-        if g is not None:
-            body = [s for s in g.body if not (isinstance(s, ast.Expr) and isinstance(s.value, ast.Constant))]
-            return len(body) == 1 and isinstance(body[0], ast.Return) and match(f"{g.self_name}.{field}", body[0].value) is not None
-        return False
-
-    # ---- private data fields of __init__
-    stores = _self_stores(init)
-    private = []
-    for st, attr, val in stores:
-        if attr.startswith('_Task__') and attr not in private:
-            private.append(attr)
-    for fld in private:
-        if fld in RELATION_STATE or fld in OWNER_STATE:
-            continue
-        feed = None
-        for st, attr, val in stores:
-            if attr == fld and isinstance(val, ast.Name) and val.id in init_params:
-                feed = val.id
-        if feed is None:
-            for pname, setter in task.setters.items():
-                vp = setter.params[1] if len(setter.params) > 1 else None
-                if any(isinstance(v, ast.Name) and v.id == vp for _, _, v in facts.attr_stores(setter, fld)):
-                    for st, attr, val in stores:
-                        if attr == pname and isinstance(val, ast.Name) and val.id in init_params:
-                            feed = val.id
-        if feed is None:
-            o.undecided(init, init.node, unmangle(fld), f"private field {unmangle(fld)} of Task.__init__ is neither relation/owner state "
-                                                        f"nor fed by a constructor parameter: cannot decide whether Task.clone must copy it")
-            continue
-        arg = bind.get(feed)
-        if arg is None:
-            o.refute(cl, ctor, unmangle(fld), f"private data field {unmangle(fld)} (constructor parameter `{feed}`) is not passed to "
-                                              f"`Task(...)` in Task.clone and the generic loop skips names starting with '_': every copy "
-                                              f"gets the default instead of the source's value")
-        elif reads(arg, field=fld):
-            o.site(cl, ctor, f"{unmangle(fld)} -> {feed}={src(arg)}")
-        else:
-            e = ex.expand(arg, cfg.node_containing(ctor))
-            if match(f"{sn}.$a", e):
-                o.refute(cl, ctor, f"{feed}={src(arg)}", f"constructor parameter `{feed}` (field {unmangle(fld)}) receives `{src(arg)}`, "
-                                                         f"which reads a different field of the source")
-            else:
-                o.undecided(cl, ctor, f"{feed}={src(arg)}", f"cannot show that `{src(arg)}` is the source's value of {unmangle(fld)}")
-
-    # ---- generic loop over the public instance attributes
-    loops = [l for l in find_copy_loops(ctx, cl) if isinstance(l.src_caller, ast.Name) and l.src_caller.id == sn]
-    loop_ok = False
-    for l in loops:
-        fine = report_copy_loop(o, cl, l, "Task attribute")
-        if fine and not (isinstance(l.dst_caller, ast.Name) and l.dst_caller.id == cvar):
-            o.undecided(cl, l.call, l.call, "the attribute copy loop does not write to the task returned by clone")
-            fine = False
-        if fine and not l.on_every_path(cl):
-            o.undecided(l.func, l.for_node, l.for_node.iter, "the attribute copy loop is not on every path to the return")
-            fine = False
-        if fine:
-            loop_ok = True
-            o.site(l.func, l.for_node, "for k in self.__dict__: if not k.startswith('_'): copy.__setattr__(k, self.__getattribute__(k))")
-    if not loops:
-        if copy_idiom_in_reach(ctx, cl, {'task.Task.__init__'}):
-            o.undecided(cl, cl.node, 'attribute copy', "Task.clone copies attributes in an idiom the rule does not recognise")
-        else:
-            o.refute(cl, cl.node, 'no attribute copy loop', "Task.clone has no loop over self.__dict__: custom attributes (kwargs / "
-                                                            "set later) are never copied")
-
-    # ---- every public instance attribute assigned in __init__ is covered
-    public = []
-    for st, attr, val in stores:
-        if not attr.startswith('_') and attr not in public and prog.find_setter('Task', attr) is None \
-                and prog.find_getter('Task', attr) is None:
-            public.append((attr, val))
-    seen = set()
-    for attr, val in public:
-        if attr in seen:
-            continue
-        seen.add(attr)
-        feed = val.id if isinstance(val, ast.Name) and val.id in init_params else None
-        arg = bind.get(feed) if feed else None
-        if arg is not None and reads(arg, attr=attr):
-            o.site(cl, ctor, f"{attr}: constructor argument {feed}={src(arg)}")
-        elif loop_ok:
-            o.site(loops[0].func, loops[0].for_node, f"{attr}: public instance attribute, covered by the generic loop")
-        elif loops:
-            o.refute(cl, ctor, attr, f"public field `{attr}` of Task.__init__ is neither passed to the constructor in Task.clone nor "
-                                     f"copied by an unfiltered loop over the public attributes: the copy keeps the constructor default")
-        # no loop at all: already refuted above
-
-    # ---- purity of Task.clone
-    eff = Effects(prog, ctx.typer, ctx.cg)
-    ws = eff.writes_star(cl)
-    if ws:
-        for key in sorted(ws):
-            o.refute(cl, cl.node, f"writes {unmangle(key[0])}", f"Task.clone modifies {unmangle(key[0])} of `{key[1]}` "
-                                                                f"({' -> '.join(eff.explain(cl, key))[:160]}): cloning must leave the source unchanged")
-    else:
-        o.site(cl, cl.node, "Task.clone writes only to the task it constructs")
+    """Task.clone is a faithful, independent copy of one task (also used by C02 / C06); implemented in clone_common"""
+    clone_provenance(ctx, o, ('fields',))
 
 
 # ---------------------------------------------------------------------------------------------------------------------
@@ -318,9 +152,9 @@ def _once(ctx, o):
     clone_provenance(ctx, o, ('once',))
     prog = ctx.prog
     cl = prog.func('task.Task.clone')
-    ctors = [n for n in walk_no_nested(cl.node) if isinstance(n, ast.Call) and isinstance(n.func, ast.Name) and n.func.id == 'Task']
+    shape = task_clone_shape(ctx)
     cfg = cfg_of(cl)
-    if len(ctors) == 1 and not cfg.enclosing_loops(cfg.node_containing(ctors[0])):
-        o.site(cl, ctors[0], "Task.clone constructs exactly one Task")
+    if shape.kind is not None and not cfg.enclosing_loops(cfg.node_containing(shape.node)):
+        o.site(cl, shape.node, "Task.clone constructs exactly one Task" + (" (Task(...))" if shape.kind == 'ctor' else " (copy.copy(self))"))
     else:
-        o.undecided(cl, cl.node, 'Task(...)', f"Task.clone contains {len(ctors)} constructor calls / constructs inside a loop")
+        o.undecided(cl, cl.node, 'Task(...)', "Task.clone does not build its result by exactly one Task(...) / copy.copy(self) outside loops")
